@@ -1,25 +1,41 @@
-from lib.core import Kani, Fn
+import os
+from lib.core import Kani, Verus, Fn, VERUS_DIR
+from lib import vx
+from verus import c29_fact_count as fcnt
+
+
+def build_fc():
+    text, located, dropped, raws = fcnt.build()
+    d = os.path.join(VERUS_DIR, 'c29_fact_count')
+    os.makedirs(d, exist_ok=True)
+    vx.write_diff(raws, os.path.join(d, 'repo_vs_verified.diff'))
+    return text, located, dropped
 
 PROPERTY = 'C29'
 LEVEL = 'proof'
 I = 'crates/aranya-runtime/src/vm_policy/io.rs'
 M = 'vm_policy::io::verif_kani::'
 RT = dict(crate='aranya-runtime', features='testing,libc')
-HARNESS_FILES = ['kani/aranya-runtime/io.rs']
+HARNESS_FILES = ['kani/aranya-runtime/io.rs', 'verus/c29_fact_count.py']
 UNITS = [
+    Verus('c29_fact_count', build_fc, min_verified=4,
+          contract='the Instruction::FactCount arm of RunState::step (count_up_to / at_least / at_most / exactly), extracted as a block: for any stored facts and any limit it pushes '
+                   'Int(c) with c = the number of results of the storage query (name + leading keys, in order) that pass the value filter fact_match, counting stops exactly when c reaches '
+                   'the limit or the results are exhausted (c = min(limit, matches); facts failing the filter never use up the limit); limit <= 0 gives 0; a storage error is returned; terminates'),
     Kani(M + 'c29_ser_key_int_order_and_roundtrip', fns=[Fn(I, 'ser_key'), Fn(I, 'deser_key')],
          contract='for all pairs of i64: ser_key lengths equal, byte-lexicographic order = numeric order, equal iff equal; deser_key(ser_key(k)) = k', **RT),
     Kani(M + 'c29_ser_key_bool_order_and_roundtrip', fns=[Fn(I, 'ser_key'), Fn(I, 'deser_key')],
          contract='all four bool pairs: false < true preserved, round trip', **RT),
 ]
-TRUSTED = []
-ASSUMPTIONS = ['ONLY the order-preserving key encoding is decided. query/exists/count_up_to/at_least/at_most/exactly/map semantics, value filtering, create/update/delete '
-               '(VM x storage end to end) are NOT covered: RunState::step with fact values and the nested-BTreeMap fact store are outside CBMC\'s practical reach (DESIGN C12/C25)',
+TRUSTED = ['c29_fact_count: ipop::<Fact>, validate_fact_literal, MachineIO::fact_query (results = stored(name, keys) in key order), the query iterator, fact_match and ipush are external with assumed contracts']
+ASSUMPTIONS = ['decided: the order-preserving key encoding and the counting loop of FactCount. NOT covered: query / exists / map (QueryStart/QueryNext), fact_match itself (leading keys + value fields), '
+               'the compiler lowering of at_least/at_most/exactly onto FactCount, create/update/delete, and VmPolicyIO::fact_query against the storage (end to end); '
+               'RunState::step with fact values and the nested-BTreeMap fact store are outside CBMC\'s practical reach (DESIGN C12/C25)',
                'String, Id and Enum keys are not covered (Enum: Vec concat with symbolic content ran out of memory)']
-EXPLANATION = 'Only the pure key-encoding mechanism is within reach; it is proved over the full i64 domain.'
+EXPLANATION = 'Two mechanisms: the key encoding (full i64 domain, Kani) and the capped, filtered counting loop of FactCount (any number of facts, Verus on the extracted arm).'
 MANIFEST = {
-    'text': 'Proof of one mechanism only: the fact-key encoding used for prefix queries preserves order and round-trips for all Int (all i64 pairs) and Bool keys. '
-            'The policy-level query semantics against a fact-store model are not decided.',
-    'note': 'Mechanism contract only (PROVED-LOCAL); everything beyond ser_key/deser_key on Int/Bool is not covered.',
-    'technique': 'Kani contract harness over the full i64 domain + CBMC',
+    'text': 'Proof of two mechanisms: the fact-key encoding used for prefix queries preserves order and round-trips for all Int (all i64 pairs) and Bool keys; the counting queries '
+            '(count_up_to / at_least / at_most / exactly) count exactly the facts that pass the value filter, capped at the limit, for any stored facts. query / exists / map and fact mutation are not decided.',
+    'note': 'Mechanism contracts only (PROVED-LOCAL).',
+    'technique': 'Verus on the extracted FactCount arm + Kani contract harness over the full i64 domain (CBMC)',
 }
